@@ -79,7 +79,7 @@ REPRESENTATIVE = [
 
 
 class State:
-    __slots__ = ("table", "model", "exc", "diverged", "pre", "doc", "depth")
+    __slots__ = ("table", "model", "exc", "diverged", "pre", "doc", "depth", "sr")
 
 
 class TableMachine:
@@ -119,6 +119,9 @@ class TableMachine:
             self.seed_list.append({"kind": "file", "file": fn, "table": idx})
         self.n_files = 3
         self.seed_list.extend(self.preread)
+        # save + reload after a step is judged from every seed (thorough) or from the representative ones (quick)
+        self._sr_all = self.cfg.get("save_reload_seeds", "all") == "all"
+        self._sr_seeds = [] if self._sr_all else self.select_seeds(self.cfg["save_reload_seeds"])
 
     def select_seeds(self, which):
         n = len(self.seed_list)
@@ -150,6 +153,7 @@ class TableMachine:
         st.diverged = False
         st.doc = None
         st.depth = 0
+        st.sr = self._sr_all or any(seed == self.seed_list[i] for i in self._sr_seeds)
         if seed["kind"] == "xml":
             st.table = Element.from_tag(table_xml(seed))
             mat = spec_matrix(seed)
@@ -644,7 +648,7 @@ class TableMachine:
                     fail(f"live-vs-reader:{d[0]}", d[1], d[2], f"live!=reader:{d[0]}")
             for oracle, exp, act in self.cache_invariants(t):
                 fail(oracle, exp, act, oracle)
-            if self.cfg.get("save_reload") and st.depth <= self.cfg.get("save_reload_depth", 1):
+            if self.cfg.get("save_reload") and st.sr and st.depth <= self.cfg.get("save_reload_depth", 1):
                 for oracle, exp, act in self.save_reload(t, live, W, H):
                     fail(oracle, exp, act, oracle)
         if prop == "C07":
